@@ -365,6 +365,56 @@ func tcpOptionsScenario(bound int) *explore.Scenario {
 	}
 }
 
+// drain reads each decoded frame to its end.
+type drain struct{}
+
+func (drain) HandleRead(ctx netty.InboundContext, m netty.Message) {
+	if r, ok := m.(io.Reader); ok {
+		if _, err := io.ReadAll(r); err != nil {
+			panic(err)
+		}
+	}
+}
+func (drain) HandleException(ctx netty.ExceptionContext, ex netty.Exception) { ctx.Close(ex) }
+
+// sharedDecoder: ONE decoder instance (the shipped length-based and delimiter decoders are stateless values
+// an application may build once and add to every pipeline) decodes the inbound streams of two channels
+// whose frames arrive in fragments (header split across reads).
+func sharedDecoder(name string, dec func() netty.Handler, stream []byte, bound int) *explore.Scenario {
+	return &explore.Scenario{
+		Name:  "codec/" + name + ": one decoder instance shared by two channels reading concurrently",
+		Bound: bound,
+		Cache: true,
+		Cfg:   vsched.Config{MaxSteps: 8000, Race: true},
+		Init:  func() any { return &struct{}{} },
+		Body: func(v any) {
+			shared := dec()
+			var chs []netty.Channel
+			for i := 0; i < 2; i++ {
+				t := mock.NewTransport(fmt.Sprintf("t%d", i+1))
+				for k := 0; k < len(stream); k += 1 + i { // channel 1 byte-wise, channel 2 in pairs
+					e := k + 1 + i
+					if e > len(stream) {
+						e = len(stream)
+					}
+					t.In = append(t.In, append([]byte{}, stream[k:e]...))
+				}
+				pl := netty.NewPipeline()
+				pl.AddLast(shared, drain{})
+				ch := netty.NewChannel()(int64(i+1), context.Background(), pl, t, netty.AsyncExecutor())
+				pl.ServeChannel(ch)
+				chs = append(chs, ch)
+			}
+			vsched.Sleep(int64(time.Second)) // both read loops have consumed their streams and wait for more
+			for _, ch := range chs {
+				ch.Close(errClose)
+			}
+		},
+		Outcome: func(x *vsched.Exec, v any) string { return fmt.Sprint(len(x.Races), x.Steps()) },
+		Check:   func(x *vsched.Exec, v any) []explore.Finding { return raceFindings(x) },
+	}
+}
+
 func poolScenario(bound int) *explore.Scenario {
 	return &explore.Scenario{
 		Name:  "pools/pbytes and pbuffer Get||Put from two goroutines",
@@ -395,7 +445,7 @@ func poolScenario(bound int) *explore.Scenario {
 func main() {
 	explore.Main(explore.Spec{
 		Property: "C12",
-		Rule:     "race-mode build (every field access of the library's own structs and every map operation is instrumented; sync, atomic, channel, context, pool and timer operations create exactly the happens-before edges of the Go memory model; the mock transport creates none): all pairs (and triples with Close) of {Write1, Writev, CtxWrite1, CtxWritev, ReadFrom, Channel.Write, Writer.Write, Trigger, Close, IsActive, Context} on one sync and one aq(2,B) channel with read loop and sender running, with a thread-safe transport and with a transport whose write side is plain memory (the shipped write-buffered wrapper); bootstrap {Async, Listener.Close, Shutdown, Connect, second Listen} pairs and triples; holder life cycles vs CloseAll; idle-handler timer callbacks vs messages and close; pbytes/pbuffer from two goroutines; two goroutines resolving one shared *tcp.Options the way the tcp transport does; all interleavings up to 1 (thorough 2) preemptions; a vector-clock (FastTrack-style) monitor reports conflicting accesses unordered by happens-before in any explored execution. distinct = distinct (race count, steps) observations",
+		Rule:     "race-mode build (every field access of the library's own structs and every map operation is instrumented; sync, atomic, channel, context, pool and timer operations create exactly the happens-before edges of the Go memory model; the mock transport creates none): all pairs (and triples with Close) of {Write1, Writev, CtxWrite1, CtxWritev, ReadFrom, Channel.Write, Writer.Write, Trigger, Close, IsActive, Context} on one sync and one aq(2,B) channel with read loop and sender running, with a thread-safe transport and with a transport whose write side is plain memory (the shipped write-buffered wrapper); bootstrap {Async, Listener.Close, Shutdown, Connect, second Listen} pairs and triples; holder life cycles vs CloseAll; idle-handler timer callbacks vs messages and close; pbytes/pbuffer from two goroutines; one shared decoder instance (length-field, varint, delimiter, fixed-length) decoding the fragmented inbound streams of two channels; two goroutines resolving one shared *tcp.Options the way the tcp transport does; all interleavings up to 1 (thorough 2) preemptions; a vector-clock (FastTrack-style) monitor reports conflicting accesses unordered by happens-before in any explored execution. distinct = distinct (race count, steps) observations",
 		Assume:   []string{"pipeline mutation while events flow and attachment access are outside the contract (not exercised)", "only sequentially consistent executions are explored; detection is by happens-before, not by adjacency", "vector-clock edges were cross-checked against go test -race on the seeded races"},
 		Build: func(tier string) []*explore.Scenario {
 			b := 1
@@ -484,6 +534,10 @@ func main() {
 				codecScenario("length-field+text", func() []netty.Handler {
 					return []netty.Handler{frame.LengthFieldCodec(binary.BigEndian, 1<<16, 0, 2, 0, 2), format.TextCodec()}
 				}, func(i int) any { return strings.Repeat("x", i*3) }, b+1),
+				sharedDecoder("length-field", func() netty.Handler { return frame.LengthFieldCodec(binary.BigEndian, 1024, 0, 2, 0, 2) }, []byte{0, 3, 'a', 'b', 'c', 0, 1, 'z'}, b),
+				sharedDecoder("varint", func() netty.Handler { return frame.VarintLengthFieldCodec(1024) }, []byte{3, 'a', 'b', 'c', 1, 'z'}, b),
+				sharedDecoder("delimiter", func() netty.Handler { return frame.DelimiterCodec(1024, "\r\n", true) }, []byte("ab\r\nc\r\n"), b),
+				sharedDecoder("fixed-length", func() netty.Handler { return frame.FixedLengthCodec(3) }, []byte("abcxyz"), b),
 				codecScenario("delimiter+text", func() []netty.Handler {
 					return []netty.Handler{frame.DelimiterCodec(1<<16, "\n", true), format.TextCodec()}
 				}, func(i int) any { return strings.Repeat("y", i*3) }, b+1),
